@@ -190,6 +190,7 @@ package transports
 //@   ensures [C10.toolarge413] !overlap && !v4binary && tooLarge ==> arg((*types.HttpContext).SetStatusCode, 1, statusCode) == 413 && calls((*types.HttpContext).Write) == 1 && calls(Transport.OnData) == 0
 //@   ensures [C11.okafter]     calls(io.WriteString) == 1 ==> calls(Transport.OnData) == 1 && before(Transport.OnData, 1, io.WriteString, 1) && arg(io.WriteString, 1, s) == "ok"
 //@   ensures [C11.dataaccept]  !overlap && !v4binary && !tooLarge && (calls(io.ReaderFrom.ReadFrom) == 0 || ret(io.ReaderFrom.ReadFrom, 1, 1) == nil) ==> calls(Transport.OnData) == 1 && calls(io.WriteString) == 1
+//@   ensures [C10.rawbody] calls(io.Copy) == 0 && calls(io.ReadAll) == 0 && calls(io.ReaderFrom.ReadFrom) <= 1 && (calls(io.ReaderFrom.ReadFrom) == 1 ==> calls(http.MaxBytesReader) == 1 && arg(io.ReaderFrom.ReadFrom, 1, r) == ret(http.MaxBytesReader, 1) && arg(http.MaxBytesReader, 1, n) == old(p.Transport.$maxbuf))   // the request body is read through the size-limited reader only, never drained raw
 //@   ensures [C10.readerror413] calls(io.ReaderFrom.ReadFrom) == 1 && ret(io.ReaderFrom.ReadFrom, 1, 1) != nil ==> calls(Transport.OnData) == 0 && arg((*types.HttpContext).SetStatusCode, 1, statusCode) == 413 && calls((*types.HttpContext).Write) == 1
 //@   callsite Transport.OnData#1
 //@     assert [C10.declared] ctx.request.ContentLength <= p.Transport.$maxbuf
@@ -368,12 +369,13 @@ package transports
 // for it, the payload reaches the threshold and the request names a supported coding; Content-Length is the length of the
 // buffer that is sent, Content-Encoding is present exactly on compressed bodies and names the coding used
 //@ func (*polling).DoWrite(ctx, data, options, callback)
-//@   props C16
+//@   props C16, C17
 //@   requires p != nil && p.Transport != nil && ctxOK(ctx) && data != nil && ctx.Cleanup != nil && callback != nil
 //@   dyncall callback noeffect
 //@   modifies *
 //@   let hc       = p.Transport.HttpCompression()
 //@   let wanted   = hc != nil && options != nil && old(options.Compress)
+//@   ensures [C17.ownheaders,C16.ownheaders] ncalls((*utils.ParameterBag).Set, key != "Content-Encoding") == 0    // the write path sets its own header only: what the CORS middleware put on the response (Vary, Access-Control-*) is not overwritten
 //@   ensures [C16.off]       !wanted ==> calls((*polling).compress) == 0 && calls(respond) == 1 && arg(respond, 1, data) == data && ncalls((*utils.ParameterBag).Set, key == "Content-Encoding") == 0
 //@   ensures [C16.gated]     calls((*polling).compress) == 1 ==> wanted && ret(types.BufferInterface.Len, 1) >= old(hc.Threshold) && ret(utils.Contains, 1) != "" && arg((*polling).compress, 1, encoding) == ret(utils.Contains, 1) && arg((*polling).compress, 1, data) == data
 //@   ensures [C16.threshold] wanted && ret(types.BufferInterface.Len, 1) < old(hc.Threshold) ==> calls((*polling).compress) == 0 && arg(respond, 1, data) == data
